@@ -54,6 +54,7 @@ Bad(r) ==
         chk(f, P(_)) == IF Has(r, f) /\ ~(Ok(r[f]) /\ P(r[f][2])) THEN {f} ELSE {}
     IN
     chk("kos", LAMBDA v : SccOK(g, R, v))
+    \cup chk("sccdep", LAMBDA v : SccOK(g, R, v))
     \cup chk("tar", LAMBDA v : SccOK(g, R, v))
     \cup chk("trun", LAMBDA v : /\ SccOK(g, R, v.sccs)
                                  /\ v.first = v.sccs          \* a TarjanScc object can be re-run
